@@ -41,6 +41,24 @@ def anchor_files(pid: str) -> list[str]:
     return []
 
 
+def _property_text(pid: str) -> str:
+    for line in (VERIF / "properties.jsonl").read_text().splitlines():
+        if line.strip():
+            p = json.loads(line)
+            if p["id"] == pid:
+                return (p["statement"] + " " + p["quantifier"]["text"]).lower()
+    return ""
+
+
+def quantifies_over_generators(pid: str) -> bool:
+    for line in (VERIF / "properties.jsonl").read_text().splitlines():
+        if line.strip():
+            p = json.loads(line)
+            if p["id"] == pid:
+                return "generator" in (p["statement"] + " " + p["quantifier"]["text"]).lower()
+    return False
+
+
 _SCOPE_CACHE: dict = {}
 
 
@@ -52,6 +70,23 @@ def scope_files(prog: Program, pid: str) -> set[str]:
         return _SCOPE_CACHE[key]
     from .common import resolve_callee
     files = set(anchor_files(pid))
+    # a property that quantifies over "every registered generator family" takes the games those functions build as its inputs
+    if quantifies_over_generators(pid) and prog.has_module(P + "generators"):
+        files.add(prog.module(P + "generators").rel())
+    # likewise "all four gap functions" / "all registered computers": the functions behind GAP_FUNCTIONS / BOUNDS run under the property
+    text = _property_text(pid)
+    for words, reg in ((("gap function", "gap functions"), "run.model.GAP_FUNCTIONS"), (("registered computer", "every computer", "all computers", "game class"), "bounds.BOUNDS")):
+        if any(w in text for w in words):
+            try:
+                from ..core import registry, unwrap_partial
+                for e in registry(prog, reg):
+                    callee, _a, _k, module, _env = unwrap_partial(prog, e.module, e.value, e.env)
+                    q = prog.resolve(module, callee)
+                    r = prog.find_func(q) if q else None
+                    if r is not None:
+                        files.add(r.module.rel())
+            except AnalysisError:
+                pass
     todo = [(r, 0) for r in prog.all_functions() if r.module.rel() in files]
     seen = set()
     out = set(files)
